@@ -21,7 +21,7 @@ func init() {
 		Level: "model_checking",
 		Rule: "applications with language switches before the first HALT, while handling input at the entry node, in a child node and immediately before the end x switch answers {nor,no,eng,swa,fre (639-2/B),xx,norsk with LANG; nor without LANG} chosen per call x Config.Language {'',nor} x translations present for every subset of {entry template, child template, menu label + static symbol} x all input histories up to depth d x {long-lived, persisted-mem, persisted-fs}; " +
 			"reference VM in lockstep (current language = config, then last valid code; rendered text = translation where present, default otherwise; external functions receive the language) plus: every template/menu/function lookup of a request carries the language current before or after that request, and render-time lookups carry the one after it; states = distinct (app, position, language); non-trivial = executions with >=2 effective switches or an invalid code after a valid one",
-		Assumptions: []string{"an empty language code with LANG set is outside the alphabet (the code treats it as reset; the statement does not cover it)", "three resources: the harness's recording in-memory resource (per-lookup language check) and the library's resource.DbResource over db/mem (rendered text only); and resource.PoResource over gettext catalogues written to a scratch directory (rendered text only)"},
+		Assumptions: []string{"an empty language code with LANG set is outside the alphabet (the code treats it as reset; the statement does not cover it)", "three resources: the harness's recording in-memory resource (per-lookup language check) and the library's resource.DbResource over db/mem and over db/fs with translations stored as <symbol>_<code> (rendered text only); and resource.PoResource over gettext catalogues written to a scratch directory (rendered text only)"},
 		Run:         c18Run,
 		Replay:      c18Replay,
 		MinItems:    50,
@@ -65,14 +65,15 @@ func c18App(sp c18Spec) *app.App {
 	}
 	a.Static = map[string]string{"stat": "static text"}
 	if sp.Trans&4 != 0 {
-		a.StaticLang = map[string]map[string]string{"nor": {"stat": "statisk tekst"}, "swa": {"stat": "maandishi"}}
+		a.StaticLang = map[string]map[string]string{"nor": {"stat": "statisk tekst"}, "swa": {"stat": "maandishi"}, "eng": {"stat": "english text"}}
 	}
 	a.Node("child", "child {{.cg}} {{.stat}}", codec.Ins{Op: codec.LOAD, Sym: "cg", N: 12}, codec.Ins{Op: codec.MAP, Sym: "cg"}, codec.Ins{Op: codec.RELOAD, Sym: "stat"}, codec.Ins{Op: codec.MOUT, Sym: "back", Sel: "0"}, codec.Ins{Op: codec.MOUT, Sym: "lbl", Sel: "2"},
 		codec.Ins{Op: codec.HALT}, codec.Ins{Op: codec.INCMP, Sym: "_", Sel: "0"}, codec.Ins{Op: codec.INCMP, Sym: "sw2", Sel: "2"})
 	a.Node("sw2", "sw2", codec.Ins{Op: codec.LOAD, Sym: "sw2f", N: 0}, codec.Ins{Op: codec.MOVE, Sym: "_"})
 	a.Node("fin", "bye", codec.Ins{Op: codec.LOAD, Sym: "swf", N: 0}, codec.Ins{Op: codec.RELOAD, Sym: "greet"}, codec.Ins{Op: codec.HALT})
 	a.Node("_catch", "catch", codec.Ins{Op: codec.HALT}, codec.Ins{Op: codec.INCMP, Sym: "_", Sel: "*"})
-	for _, l := range []string{"nor", "swa"} {
+	// eng is the library's default language: its translations are translations like any other
+	for _, l := range []string{"nor", "swa", "eng"} {
 		if sp.Trans&1 != 0 {
 			if a.Nodes["root"].TplLang == nil {
 				a.Nodes["root"].TplLang = map[string]string{}
@@ -190,7 +191,7 @@ func c18Run(c *mc.Ctx) {
 	c.Note("history_depth", fmt.Sprint(depth))
 	c.Note("non_default_switch_answers_per_execution", fmt.Sprint(dev))
 	// the last two serve the application through the library's resource.DbResource over db/mem
-	backends := []lsOpts{{Mode: "long-lived"}, {Mode: "persisted", Backend: "mem"}, {Mode: "long-lived", DbRes: true}, {Mode: "long-lived", PoRes: true}, {Mode: "kept-state"}}
+	backends := []lsOpts{{Mode: "long-lived"}, {Mode: "persisted", Backend: "mem"}, {Mode: "long-lived", DbRes: true}, {Mode: "long-lived", PoRes: true}, {Mode: "kept-state"}, {Mode: "long-lived", DbResFs: true}}
 	if c.Thorough() {
 		backends = append(backends, lsOpts{Mode: "persisted", Backend: "fs"}, lsOpts{Mode: "persisted", Backend: "mem", DbRes: true})
 	}
